@@ -1,0 +1,82 @@
+//go:build verif
+
+package shell_operator
+
+// Verification-only exports (build tag "verif"). Nothing here is compiled into a normal build.
+
+import (
+	"context"
+	"fmt"
+
+	"github.com/deckhouse/deckhouse/pkg/log"
+
+	klient "github.com/flant/kube-client/client"
+	"github.com/flant/shell-operator/pkg/hook/types"
+	objectpatch "github.com/flant/shell-operator/pkg/kube/object_patch"
+	"github.com/flant/shell-operator/pkg/task"
+	"github.com/flant/shell-operator/pkg/task/queue"
+)
+
+// VerifCombine gives access to the unexported combine twin used by taskHandleHookRun.
+func (op *ShellOperator) VerifCombine(q *queue.TaskQueue, t task.Task, stopCombineFn func(tsk task.Task) bool) *CombineResult {
+	return op.combineBindingContextForHook(op.TaskQueues, q, t, stopCombineFn)
+}
+
+// VerifTaskHandler returns the real task handler.
+func (op *ShellOperator) VerifTaskHandler() func(task.Task) queue.TaskResult {
+	return op.taskHandler
+}
+
+// VerifBootstrapMainQueue runs the real bootstrapMainQueue.
+func (op *ShellOperator) VerifBootstrapMainQueue() {
+	op.bootstrapMainQueue(op.TaskQueues)
+}
+
+// VerifAssemble does what Init does, minus real kube clients, debug socket and flag parsing:
+// the given (fake) client is used for informers and for the object patcher.
+// Conversion webhook manager: the body of initConversionWebhookManager without Start()
+// (Start patches CRDs through the apiextensions client, which the fake client does not have).
+func VerifAssemble(ctx context.Context, kubeClient *klient.Client, hooksDir string, tempDir string, logger *log.Logger) (*ShellOperator, error) {
+	op := NewShellOperator(ctx, WithLogger(logger))
+	op.APIServer = newBaseHTTPServer("127.0.0.1", "0")
+	op.setupMetricStorage(map[string]string{"hook": "", "binding": "", "queue": ""})
+	op.setupHookMetricStorage()
+	op.KubeClient = kubeClient
+	op.ObjectPatcher = objectpatch.NewObjectPatcher(kubeClient, logger)
+	op.SetupEventManagers()
+
+	registerHookMetrics(op.HookMetricStorage)
+	registerHookMetrics(op.MetricStorage)
+	op.setupHookManagers(hooksDir, tempDir)
+
+	if err := op.initHookManager(); err != nil {
+		return nil, fmt.Errorf("initialize HookManager fail: %w", err)
+	}
+	if err := op.initValidatingWebhookManager(); err != nil {
+		return nil, fmt.Errorf("initialize ValidatingWebhookManager fail: %w", err)
+	}
+	if err := op.verifInitConversionWebhookManager(); err != nil {
+		return nil, fmt.Errorf("initialize ConversionWebhookManager fail: %w", err)
+	}
+	return op, nil
+}
+
+// verifInitConversionWebhookManager is initConversionWebhookManager without ConversionWebhookManager.Start().
+func (op *ShellOperator) verifInitConversionWebhookManager() error {
+	if op.HookManager == nil || op.ConversionWebhookManager == nil {
+		return nil
+	}
+	hookNames, _ := op.HookManager.GetHooksInOrder(types.KubernetesConversion)
+	if len(hookNames) == 0 {
+		return nil
+	}
+	op.ConversionWebhookManager.EventHandlerFn = op.conversionEventHandler
+	if err := op.ConversionWebhookManager.Init(); err != nil {
+		return fmt.Errorf("ConversionWebhookManager init: %w", err)
+	}
+	for _, hookName := range hookNames {
+		h := op.HookManager.GetHook(hookName)
+		h.HookController.EnableConversionBindings()
+	}
+	return nil
+}
